@@ -160,7 +160,7 @@ def coqchk(pid, timeout=2400):
             "tail": txt[-600:]}
 
 
-_HYG = re.compile(r'\b(Admitted|admit|Axiom|Axioms|Parameter|Parameters|Conjecture|Hypothesis|Variable)\b|Unset\s+Guard|bypass_check|type-in-type|impredicative-set|Admit Obligations')
+_HYG = re.compile(r'\b(Admitted|admit|Axiom|Axioms|Parameter|Parameters|Conjecture|Conjectures|Hypothesis|Hypotheses|Variable|Variables)\b|Unset\s+Guard|Unset\s+Positivity|Unset\s+Universe\s+Checking|bypass_check|type-in-type|impredicative-set|Admit\s+Obligations')
 
 
 def strip_coq_comments(s):
@@ -205,6 +205,12 @@ def hygiene():
                     if w == "Axioms" and "Print" in ln:
                         continue
                     bad.append("%s:%d: %s" % (os.path.relpath(p, V), n, ln.strip()[:120]))
+    for f in ("mk.sh", "_CoqProject"):          # compiler flags that switch checks off
+        p = os.path.join(COQ, f)
+        if os.path.exists(p):
+            for n, ln in enumerate(open(p).read().split("\n"), 1):
+                if re.search(r'type-in-type|impredicative-set|-vos|-vok|-noinit', ln):
+                    bad.append("coq/%s:%d: %s" % (f, n, ln.strip()[:120]))
     return bad
 
 
